@@ -206,6 +206,38 @@ func c10Reset(e *Env, s *Sched) {
 		},
 		Bad: func(in ssa.Instruction) bool { return in == header0 },
 	})
+	if bad2 != nil {
+		// the other form: the whole out-edge list is appended to the next frontier at
+		// once (`next = append(next, succ[u]...)`), on every iteration of the loop
+		// over the frontier
+		var outer *ir.Loop
+		for _, l := range loops {
+			if l != el && l.Blocks[el.Header] && (outer == nil || len(l.Blocks) < len(outer.Blocks)) {
+				outer = l
+			}
+		}
+		if outer != nil {
+			var obody *ssa.BasicBlock
+			for _, sb := range outer.Header.Succs {
+				if outer.Blocks[sb] {
+					obody = sb
+				}
+			}
+			if obody != nil {
+				bad2, _ = ir.Bypass(nil, obody, ir.PathQuery{
+					Stop: func(in ssa.Instruction) bool {
+						c, ok := in.(*ssa.Call)
+						if !ok {
+							return false
+						}
+						bi, isB := c.Call.Value.(*ssa.Builtin)
+						return isB && bi.Name() == "append" && len(c.Call.Args) == 2 && ir.Resolve(c.Call.Args[1]) == ir.Resolve(el.Ranged)
+					},
+					Bad: func(in ssa.Instruction) bool { return in == outer.Header.Instrs[0] },
+				})
+			}
+		}
+	}
 	r.Check(bad2 == nil, "setupRetry: every out-neighbour is re-queued unconditionally", e.InstrPos(ebody.Instrs[0]),
 		"an out-neighbour can be left out of the next frontier (e.g. de-duplicated): a join reached first through a kept parent is never re-examined when a longer path later marks it for retry")
 }
@@ -269,41 +301,64 @@ func c10Flows(e *Env, s *Sched) {
 		r.Unknown("cmd package / dag.Load / agent.New", "-", "not found")
 		return
 	}
-	findCmd := func(name string) []*ssa.Function {
-		f := sp.Func(name)
-		if f == nil {
-			return nil
+	// the recorded run: result #0 of HistoryStore.FindByRequestID, taken directly or
+	// handed back by helpers of the command
+	recorded := func(v ssa.Value, dotted string) bool {
+		ps, ok := e.DeepPaths(v)
+		if !ok || len(ps) == 0 {
+			return false
 		}
-		return ir.WithClosures(f)
+		for _, p := range ps {
+			if p.Dotted() != dotted || !invokeResult(p.Root, "FindByRequestID", 0) {
+				return false
+			}
+		}
+		return true
 	}
-	isFindByReq := func(v ssa.Value) bool {
-		c, ok := v.(*ssa.Call)
-		return ok && c.Call.IsInvoke() && c.Call.Method.Name() == "FindByRequestID"
+	uuidNew := func(v ssa.Value) bool {
+		v = ir.Resolve(v)
+		if ex, isE := v.(*ssa.Extract); isE {
+			v = ex.Tuple
+		}
+		c, isC := v.(*ssa.Call)
+		return isC && strings.HasPrefix(ir.CalleeName(&c.Call), "github.com/google/uuid.New")
 	}
-	derivesFrom := func(v ssa.Value, src func(ssa.Value) bool) bool {
-		fl := &ir.Flow{C: e.C, Source: src}
-		return fl.All(v)
+	// a fresh id: a UUID generated now (directly or handed back by a helper), nothing read back
+	freshID := func(v ssa.Value) bool {
+		ps, ok := e.DeepPaths(v)
+		if !ok || len(ps) == 0 {
+			return false
+		}
+		for _, p := range ps {
+			okU := false
+			if len(p.Fields) == 0 {
+				if uuidNew(p.Root) {
+					okU = true
+				}
+				if c, isC := p.Root.(*ssa.Call); isC && strings.HasSuffix(ir.CalleeName(&c.Call), "uuid.UUID).String") && len(c.Call.Args) == 1 && uuidNew(c.Call.Args[0]) {
+					okU = true
+				}
+			}
+			if !okU {
+				return false
+			}
+		}
+		return true
 	}
 	// ---- retry
-	var retryFns = findCmd("retryCmd")
+	retryFns := e.cobraBody("retry")
 	nLoad, nNew := 0, 0
 	for _, f := range retryFns {
 		for _, ci := range ir.CallsIn(f, func(c *ssa.CallCommon) bool { return c.StaticCallee() == loadFn }) {
 			nLoad++
 			arg := ci.Common().Args[2]
-			p, okp := e.C.PathOf(arg)
-			ok := okp && p.Suffix("Status.Params") && derivesFrom(p.Root, isFindByReq)
-			r.Check(ok, "retry: dag.Load(…, params = FindByRequestID(…).Status.Params)", e.InstrPos(ci),
+			r.Check(recorded(arg, "Status.Params"), "retry: dag.Load(…, params = FindByRequestID(…).Status.Params)", e.InstrPos(ci),
 				"the retry does not load the DAG with the parameter values of the recorded run: "+e.C.Render(arg))
 		}
 		for _, ci := range ir.CallsIn(f, func(c *ssa.CallCommon) bool { return c.StaticCallee() == agentNew }) {
 			nNew++
 			id := ci.Common().Args[0]
-			okID := derivesFrom(id, func(v ssa.Value) bool {
-				c, ok := v.(*ssa.Call)
-				return ok && c.Call.StaticCallee() != nil && c.Call.StaticCallee().Name() == "generateRequestID"
-			})
-			r.Check(okID, "retry: the agent's request id comes from generateRequestID()", e.InstrPos(ci),
+			r.Check(freshID(id), "retry: the agent's request id is freshly generated", e.InstrPos(ci),
 				"the retry is recorded under the request id of the run being retried (or another non-fresh id) instead of as a new run")
 			// options.RetryTarget
 			opts := ci.Common().Args[len(ci.Common().Args)-1]
@@ -312,10 +367,8 @@ func c10Flows(e *Env, s *Sched) {
 				for _, ref := range *al.Referrers() {
 					if fa, ok := ref.(*ssa.FieldAddr); ok && ir.FieldNameOf(fa.X.Type(), fa.Field) == "RetryTarget" {
 						for _, r2 := range *fa.Referrers() {
-							if st, ok := r2.(*ssa.Store); ok {
-								if p, okp := e.C.PathOf(st.Val); okp && p.Dotted() == "Status" && derivesFrom(p.Root, isFindByReq) {
-									okT = true
-								}
+							if st, ok := r2.(*ssa.Store); ok && recorded(st.Val, "Status") {
+								okT = true
 							}
 						}
 					}
@@ -325,36 +378,63 @@ func c10Flows(e *Env, s *Sched) {
 		}
 	}
 	if nLoad == 0 || nNew == 0 {
-		r.Unknown("retry command body", "-", sprintf("dag.Load calls=%d agent.New calls=%d", nLoad, nNew))
+		r.Unknown("retry command body", "-", sprintf("dag.Load calls=%d agent.New calls=%d in the body of the command whose usage starts with `retry`", nLoad, nNew))
 	}
-	// ---- agent: nodes from retryTarget.Nodes
-	sg := e.Fn("internal/agent", "(*Agent).setupGraphForRetry")
-	if sg != nil {
-		ok := false
-		for _, l := range ir.Loops(sg) {
-			if l.Ranged != nil {
-				if p, okp := e.C.PathOf(l.Ranged); okp && p.Suffix("retryTarget.Nodes") {
-					// ToNode of the element appended
-					for b := range l.Blocks {
-						for _, in := range b.Instrs {
-							if c, isC := in.(*ssa.Call); isC && c.Call.StaticCallee() != nil && c.Call.StaticCallee().Name() == "ToNode" && ir.Resolve(c.Call.Args[0]) == ir.Resolve(l.Elem) {
-								ok = true
-							}
+	// ---- agent: the retry graph is built by the retry constructor from retryTarget.Nodes, each through ToNode
+	a := e.agentRoles()
+	var retryCtor []ssa.CallInstruction
+	fset := map[*ssa.Function]bool{}
+	for _, h := range a.Holders(apiNewGraph + "ForRetry") {
+		retryCtor = append(retryCtor, ir.CallsIn(h, func(c *ssa.CallCommon) bool {
+			return strings.Contains(ir.CalleeName(c), apiNewGraph+"ForRetry")
+		})...)
+		fset[h] = true
+		for _, g := range e.staticClosure(h) {
+			if a.inPkg(g) {
+				fset[g] = true
+			}
+		}
+	}
+	r.Check(len(retryCtor) > 0, "agent: a retry uses the retry graph constructor", "internal/agent", "the retry does not use NewExecutionGraphForRetry (no reset of the unfinished part)")
+	okNodes := false
+	isRecordedNodes := func(v ssa.Value) bool {
+		ps, ok := e.DeepPaths(v)
+		if !ok || len(ps) == 0 {
+			return false
+		}
+		for _, p := range ps {
+			if !strings.HasSuffix(p.Dotted(), "retryTarget.Nodes") {
+				return false
+			}
+		}
+		return true
+	}
+	for _, f := range sortedFns(fset) {
+		for _, l := range ir.Loops(f) {
+			if l.Ranged == nil || !isRecordedNodes(l.Ranged) {
+				continue
+			}
+			for b := range l.Blocks {
+				for _, in := range b.Instrs {
+					c, isC := in.(*ssa.Call)
+					if !isC || c.Call.StaticCallee() == nil || c.Call.StaticCallee().Name() != "ToNode" || len(c.Call.Args) == 0 {
+						continue
+					}
+					recv := ir.Resolve(c.Call.Args[0])
+					if l.Elem != nil && recv == ir.Resolve(l.Elem) {
+						okNodes = true
+					}
+					if u, isU := recv.(*ssa.UnOp); isU && u.Op == token.MUL {
+						if ia, isI := u.X.(*ssa.IndexAddr); isI && isRecordedNodes(ia.X) {
+							okNodes = true
 						}
 					}
 				}
 			}
 		}
-		r.Check(ok, "setupGraphForRetry: nodes rebuilt from retryTarget.Nodes via ToNode", e.Pos(sg.Pos()),
-			"the retry graph is not built from the recorded node table (steps and states of the run being retried)")
-		okG := false
-		for _, ci := range ir.CallsIn(sg, func(c *ssa.CallCommon) bool {
-			return c.StaticCallee() != nil && c.StaticCallee().Name() == "NewExecutionGraphForRetry"
-		}) {
-			okG = ci != nil
-		}
-		r.Check(okG, "setupGraphForRetry: uses the retry graph constructor", e.Pos(sg.Pos()), "the retry does not use NewExecutionGraphForRetry (no reset of the unfinished part)")
 	}
+	r.Check(okNodes, "agent: the retry graph's nodes are rebuilt from retryTarget.Nodes via ToNode", "internal/agent",
+		"the retry graph is not built from the recorded node table (steps and states of the run being retried)")
 	// ---- restart: the parameters the DAG is re-loaded with are GetLatestStatus(…).Params,
 	// taken directly or through a helper of the command that returns exactly that
 	var latestParams func(v ssa.Value, d int) bool
@@ -411,8 +491,8 @@ func c10Flows(e *Env, s *Sched) {
 		return n > 0
 	}
 	nRestart := 0
-	for _, f := range findCmd("restartCmd") {
-		for _, g := range sortedFns(e.inlinedSet(f, nil)) {
+	for _, f := range e.cobraBody("restart") {
+		for _, g := range []*ssa.Function{f} {
 			for _, ci := range ir.CallsIn(g, func(c *ssa.CallCommon) bool { return c.StaticCallee() == loadFn }) {
 				arg := ci.Common().Args[2]
 				if s, isC := ir.ConstString(arg); isC && s == "" {
@@ -459,7 +539,18 @@ func c08PersistedFields(e *Env, s *Sched) {
 	// model.Node fields written by FromNode from those reads
 	// ToNode: NodeState fields written (composite literal stores)
 	written := map[string]bool{}
-	for _, b := range to.Blocks {
+	// the restorer and the helpers of its package it is made of
+	toFns := []*ssa.Function{to}
+	for _, g := range e.staticClosure(to) {
+		if g != to && rootFn(g).Package() == to.Package() {
+			toFns = append(toFns, g)
+		}
+	}
+	var toBlocks []*ssa.BasicBlock
+	for _, g := range toFns {
+		toBlocks = append(toBlocks, g.Blocks...)
+	}
+	for _, b := range toBlocks {
 		for _, in := range b.Instrs {
 			if st, ok := in.(*ssa.Store); ok {
 				if fa, ok := st.Addr.(*ssa.FieldAddr); ok && strings.HasSuffix(ir.NamedType(fa.X.Type()), ".NodeState") {
@@ -473,7 +564,7 @@ func c08PersistedFields(e *Env, s *Sched) {
 		r.Check(written[f], "ToNode: restores NodeState."+f, e.Pos(to.Pos()), "a retry does not restore the step's recorded "+f)
 	}
 	// the restored value of each field comes from the same-named recorded field
-	for _, b := range to.Blocks {
+	for _, b := range toBlocks {
 		for _, in := range b.Instrs {
 			st, ok := in.(*ssa.Store)
 			if !ok {
